@@ -8,6 +8,6 @@ CHECKS=${@:-$P}
 git -C /repo worktree add --detach $WT HEAD >/dev/null 2>&1 || exit 9
 git -C $WT apply /verif/seeded/$ID/patch.diff || { echo "PATCH DOES NOT APPLY: $ID"; git -C /repo worktree remove --force $WT; exit 8; }
 for c in $CHECKS; do
-  VERIF_REPO=$WT VERIF_TARGET=/tmp/recheck-target-$ID VERIF_EVID=/tmp/recheck-target-$ID/evid VERIF_REPLAYS=/tmp/recheck-target-$ID/replays /verif/verif.py check $c 2>&1 | grep -E "\] (held|violated|inconclusive)|BUILD FAILED" | sed "s/^/$ID: /"
+  VERIF_REPO=$WT VERIF_TARGET=/tmp/recheck-target-$ID VERIF_EVID=/tmp/recheck-target-$ID/evid VERIF_REPLAYS=/tmp/recheck-target-$ID/replays /verif/verif.py check $c 2>&1 | grep -a -E "\] (held|violated|inconclusive)|BUILD FAILED" | sed "s/^/$ID: /"
 done
 git -C /repo worktree remove --force $WT; rm -rf /tmp/recheck-target-$ID
